@@ -451,6 +451,20 @@ def parallel(ctx, func, jobs, procs=None):
         _merge(ctx, res)
 
 
+def harness_fault(exc):
+    """Is this exception a defect of the MACHINERY rather than behaviour of the library?  True for attribute / type /
+    name errors raised by a statement in the harness's own code (vf/...) - e.g. a private attribute of the library that
+    the simulation reads and that a refactoring renamed.  Such a tree cannot be judged: exit 2, not a violation."""
+    if not isinstance(exc, (AttributeError, NameError, TypeError, ImportError)):
+        return False
+    tb = exc.__traceback__
+    last = None
+    while tb is not None:
+        last = tb.tb_frame.f_code.co_filename
+        tb = tb.tb_next
+    return last is not None and (os.sep + 'vf' + os.sep) in last and os.path.abspath(last).startswith(VERIF_DIR)
+
+
 def lib_frame(exc):
     """(exception type, innermost pynetdicom2 frame) - bucket key for unexpected exceptions."""
     tb = exc.__traceback__
